@@ -71,6 +71,16 @@ def execute(prop, tier, seed, sc, topo, disconnect=False):
     splitv = [dict(x, splitverdict=k) for x in scheds for k in (1, 2) if not x["late"] and not x.get("splittimer")
               and any(n.startswith("t:") for n in x["sched"][1:]) and any(n.startswith("v:") for n in x["sched"][:-1])]
     scheds += rnd.sample(splitv, min(len(splitv), 150 if quick else 1500))
+    for x in scheds:
+        x.setdefault("otherdisc", -1)
+    # an uninvolved second peer disconnects while the writes are pending: the outcomes do not depend on it - in particular a
+    # write nobody decides still gets its timeout result (silent callbacks, the timeout elapses after the disconnect)
+    other = [dict(x, otherdisc=rnd.choice([0, len(x["sched"]) // 2])) for x in rnd.sample(scheds, min(len(scheds), 80 if quick else 800))
+             if not x["late"] and not x["splittimer"] and not x["splitverdict"]]
+    for ncb in (1, 2):
+        other.append({"verdict": {"w1": ["silent"] * ncb}, "expires": {"w1": True}, "sched": ["t:w1"], "unsafe": False, "disconnect": -1,
+                      "late": {"w1": True}, "splittimer": 0, "splitverdict": 0, "otherdisc": 0})
+    scheds += other
     if disconnect:
         d = [dict(x, disconnect=rnd.choice([0, len(x["sched"]) // 2])) for x in scheds if any(x["expires"].values())]
         scheds = rnd.sample(d, min(len(d), 150 if quick else 1500))
@@ -108,7 +118,7 @@ def execute(prop, tier, seed, sc, topo, disconnect=False):
         seen.add(key)
         viol += 1
         o = x["observed"]
-        path = write_replay(prop, "approval_%d" % viol, {"property": prop, "config": dict({k: o[k] for k in ("verdict", "expires", "sched", "disconnect")}, splittimer=o.get("splittimer", 0), splitverdict=o.get("splitverdict", 0), late=o.get("late", {})),
+        path = write_replay(prop, "approval_%d" % viol, {"property": prop, "config": dict({k: o[k] for k in ("verdict", "expires", "sched", "disconnect")}, splittimer=o.get("splittimer", 0), splitverdict=o.get("splitverdict", 0), otherdisc=o.get("otherdisc", -1), late=o.get("late", {})),
                             "defects": x["defects"], "observed": {k: o[k] for k in ("outcomes", "presented", "data", "afterdisc", "panic", "realised")},
                             "how": "harness approval-replay"})
         print("VIOLATION property=%s replay=%s" % (prop, path))
